@@ -21,6 +21,7 @@ TABLES = {
     "adapter": dict(test="TestTraceAdapter", module="AdapterCheck", pkg="natsx", env={"quick": {"VERIF_NATS_ROUNDS": "3"}, "thorough": {"VERIF_NATS_ROUNDS": "25"}}),
     "lifehttp": dict(test="TestTableLifeHTTP", module="LifeHTTPCheck", pkg="gw", env={"quick": {"VERIF_LIFEHTTP_ROUNDS": "5"}, "thorough": {"VERIF_LIFEHTTP_ROUNDS": "40"}}),
     "access": dict(test="TestTableAccess", module="AccessCheck", env={}),
+    "httpconn": dict(test="TestTableHTTPConn", module="HttpConnCheck", pkg="gw", env={}),
     "httptoken": dict(test="TestTableHTTPToken", module="HttpTokenCheck", pkg="gw", env={}),
     "httpaccess": dict(test="TestTableHTTPAccess", module="HttpAccessCheck", pkg="gw", env={}),
     "values": dict(test="TestTableValues", module="ValueCheck", env={}),
